@@ -45,6 +45,13 @@ def cases(tier, seed):
                                             "fmt": fmt, "si": si,
                                             "lat": [1, 2] if tier == "quick" else [0, 1, 2, 3]})
                                 idx += 1
+    # rows without any bound; huge finite variable bounds
+    for vk in (["free", "boxed"], ["hugebox", "lower"], ["hugebox", "hugebox"]):
+        for rows in ([("affine", "freerow")], [("sphere", "freerow"), ("affine", "eqoff")], [("affine", "ranged"), ("bilinear", "freerow")]):
+            for si in range(7):
+                out.append({"n": 2, "vk": vk, "rows": [list(r) for r in rows], "obj": "qfull", "fmt": FMTS[idx % 4], "si": si,
+                            "lat": [1, 2] if tier == "quick" else [0, 1, 2, 3]})
+                idx += 1
     # rows of large magnitude and tiny relative width (must stay ranged rows with a slack)
     for vk in (["free", "boxed"], ["lower", "fixed"]):
         for rows in ([("affine", "narrow")], [("sphere", "narrow"), ("affine", "eqoff")], [("affine", "eq0"), ("bilinear", "narrow")]):
